@@ -131,6 +131,54 @@ var freshAlloc2 = map[string]bool{}
 
 func registerFreshAlloc2(pkg, fn string) { freshAlloc2[modPath+"/"+pkg+"."+fn] = true }
 
+// registerExtField2: a struct field of FUNCTION type that stands for the environment ("Struct.field"):
+//
+//	"read": func() T  - a value the environment supplies; x.f() reads the record field R_f : T (the
+//	        same value at every call within one translated call: e.g. an injected clock);
+//	"call": func(args) [T] - an outgoing call: x.f(a, b) appends (a, b) to the log field R_f_log and
+//	        answers the field R_f_ret (what the environment will answer); R_f : bool says whether the
+//	        Go field is non-nil (x.f != nil); calling a nil function value is GPanic.
+//
+// The function that calls a "call" field of its receiver is translated state-passing.
+var extFields2 = map[string]string{}
+
+func registerExtField2(pkg, structField, kind string) {
+	extFields2[modPath+"/"+pkg+"."+structField] = kind
+}
+
+// registerIgnoredCall2: a function whose calls have no effect the models observe (logging). Its
+// operands are still translated (their panics are behaviour), the call itself is dropped.
+var ignoredCalls2 = map[string]bool{}
+
+func registerIgnoredCall2(pkg, fn string) { ignoredCalls2[modPath+"/"+pkg+"."+fn] = true }
+
+// absIntKind: library value types modelled as an int64: time.Time is an instant in nanoseconds
+// (zero value 0; t.Sub(u) = t - u, valid while the difference fits an int64 - Go saturates there).
+func absIntKind(ty types.Type) (ikind, bool) {
+	n, ok := ty.(*types.Named)
+	if !ok || n.Obj().Pkg() == nil {
+		return ikind{}, false
+	}
+	if n.Obj().Pkg().Path() == "time" && n.Obj().Name() == "Time" {
+		return ikind{true, 64}, true
+	}
+	return ikind{}, false
+}
+
+// isStructList: []T with T a struct of a translated package (list T): len, index, slice, append of
+// elements, range, nil.
+func (t *tr2) isStructList(ty types.Type) (*types.Named, bool) {
+	sl, ok := ty.Underlying().(*types.Slice)
+	if !ok {
+		return nil, false
+	}
+	n, _, ok := namedStruct(sl.Elem())
+	if !ok || t.g.mods[n.Obj().Pkg().Path()] == "" {
+		return nil, false
+	}
+	return n, true
+}
+
 // registerSum2: a closed interface modelled as a sum type of the listed implementations ("T" or
 // "*T", struct types of translated packages); nil is its own constructor. Method calls on a value
 // of the interface dispatch on the constructor (nil receiver = GPanic).
@@ -181,6 +229,9 @@ type recField struct {
 	goName, coq string
 	ty          types.Type
 	ok          bool
+	cty, zero   string // overrides for pseudo-fields of external function fields
+	ext         string // "" | "read" | "call": the Go field is a registered external function
+	extSig      *types.Signature
 }
 
 type recInfo struct {
@@ -244,6 +295,7 @@ type tr2 struct {
 	sig      *types.Signature
 	errs     []string
 	stubOnly bool
+	extOK    bool // an external function field is being read on purpose (call / nil test)
 	// receiver of a state-passing method (written through): every return also returns it
 	mutRecv types.Object
 }
@@ -391,6 +443,12 @@ func (t *tr2) typeOK(ty types.Type) bool {
 	if _, ok := atomicKind(ty); ok {
 		return true
 	}
+	if _, ok := absIntKind(ty); ok {
+		return true
+	}
+	if _, ok := t.isStructList(ty); ok {
+		return true
+	}
 	if si := sumOf(ty); si != nil {
 		return t.g.mods[modPath+"/"+si.pkg] != ""
 	}
@@ -412,9 +470,36 @@ func (t *tr2) record(n *types.Named) *recInfo {
 	r := &recInfo{mod: mod, name: ident(tn.Name())}
 	t.g.recs[tn] = r
 	st := n.Underlying().(*types.Struct)
+	var exts []int
 	for i := 0; i < st.NumFields(); i++ {
 		f := st.Field(i)
-		ok := t.typeOK(f.Type())
+		if kind := extFields2[tn.Pkg().Path()+"."+tn.Name()+"."+f.Name()]; kind != "" {
+			sig, _ := f.Type().Underlying().(*types.Signature)
+			bad := sig == nil || sig.Results().Len() > 1 || sig.Variadic()
+			if !bad {
+				for j := 0; j < sig.Params().Len(); j++ {
+					bad = bad || !t.typeOK(sig.Params().At(j).Type())
+				}
+				if sig.Results().Len() == 1 {
+					bad = bad || !t.typeOK(sig.Results().At(0).Type())
+				}
+				bad = bad || (kind == "read" && (sig.Params().Len() != 0 || sig.Results().Len() != 1))
+			}
+			if bad {
+				t.fail(nil2(f), "external field %s.%s: unsupported function type %s", tn.Name(), f.Name(), f.Type())
+				r.fields = append(r.fields, recField{goName: f.Name(), coq: r.name + "_" + f.Name(), ty: f.Type(), ok: false})
+				continue
+			}
+			t.noteTypeDeps(mod, sig)
+			if kind == "read" {
+				r.fields = append(r.fields, recField{goName: f.Name(), coq: r.name + "_" + f.Name(), ty: sig.Results().At(0).Type(), ok: true, ext: "read", extSig: sig})
+			} else {
+				r.fields = append(r.fields, recField{goName: f.Name(), coq: r.name + "_" + f.Name(), ty: types.Typ[types.Bool], ok: true, ext: "call", extSig: sig})
+				exts = append(exts, i)
+			}
+			continue
+		}
+		ok := t.typeOK(f.Type()) && f.Name() != "_"
 		if f.Embedded() {
 			// an embedded struct (by value) is an ordinary field named after its type
 			_, _, isS := namedStruct(f.Type())
@@ -422,9 +507,15 @@ func (t *tr2) record(n *types.Named) *recInfo {
 		}
 		if ok {
 			// make sure nested records are declared first
-			if nn, _, isS := namedStruct(f.Type()); isS {
+			if _, isAtomic := atomicKind(f.Type()); isAtomic {
+				// an integer
+			} else if _, isAbs := absIntKind(f.Type()); isAbs {
+				// an integer
+			} else if nn, _, isS := namedStruct(f.Type()); isS {
 				t.record(nn)
 			} else if nn, isP := ptrStruct(f.Type()); isP {
+				t.record(nn)
+			} else if nn, isL := t.isStructList(f.Type()); isL {
 				t.record(nn)
 			}
 		}
@@ -446,8 +537,82 @@ func (t *tr2) record(n *types.Named) *recInfo {
 			}
 		}
 	}
+	// pseudo-fields of the external "call" fields, after the Go fields (indices beyond NumFields)
+	for _, i := range exts {
+		f := r.fields[i]
+		sig := f.extSig
+		parts := []string{}
+		for j := 0; j < sig.Params().Len(); j++ {
+			parts = append(parts, t.ctypeIn(mod, sig.Params().At(j).Type()))
+		}
+		at := "unit"
+		if len(parts) == 1 {
+			at = parts[0]
+		} else if len(parts) > 1 {
+			at = "(" + strings.Join(parts, " * ") + ")"
+		}
+		r.fields = append(r.fields, recField{goName: f.goName + "#log", coq: f.coq + "_log", ok: true, cty: "(list " + at + ")", zero: "[]"})
+		if sig.Results().Len() == 1 {
+			r.fields = append(r.fields, recField{goName: f.goName + "#ret", coq: f.coq + "_ret", ty: sig.Results().At(0).Type(), ok: true})
+		}
+	}
 	t.g.recOf[mod] = append(t.g.recOf[mod], r)
 	return r
+}
+
+func nil2(v *types.Var) ast.Node { return &ast.Ident{NamePos: v.Pos(), Name: v.Name()} }
+
+// ctypeIn: the Coq type of ty as written inside module mod.
+func (t *tr2) ctypeIn(mod string, ty types.Type) string {
+	save := t.mod
+	t.mod = mod
+	defer func() { t.mod = save }()
+	return t.ctype(nil, ty)
+}
+
+func (t *tr2) noteTypeDeps(mod string, sig *types.Signature) {
+	note := func(ty types.Type) {
+		dm := ""
+		if nn, _, isS := namedStruct(ty); isS {
+			dm = t.g.mods[nn.Obj().Pkg().Path()]
+			if dm != "" {
+				t.record(nn)
+			}
+		} else if nn, isP := ptrStruct(ty); isP {
+			dm = t.g.mods[nn.Obj().Pkg().Path()]
+			if dm != "" {
+				t.record(nn)
+			}
+		} else if si := sumOf(ty); si != nil {
+			dm = t.g.mods[modPath+"/"+si.pkg]
+		}
+		if dm != "" && dm != mod {
+			if t.g.deps[mod] == nil {
+				t.g.deps[mod] = map[string]bool{}
+			}
+			t.g.deps[mod][dm] = true
+		}
+	}
+	for j := 0; j < sig.Params().Len(); j++ {
+		note(sig.Params().At(j).Type())
+	}
+	for j := 0; j < sig.Results().Len(); j++ {
+		note(sig.Results().At(j).Type())
+	}
+}
+
+func (t *tr2) fieldType(f recField) string {
+	if f.cty != "" {
+		return f.cty
+	}
+	return t.ctype(nil, f.ty)
+}
+
+func (t *tr2) fieldZero(n ast.Node, f recField) string {
+	if f.zero != "" {
+		return f.zero
+	}
+	return t.zero(n, f.ty)
 }
 
 func (t *tr2) q(mod, name string) string {
@@ -470,6 +635,13 @@ func (t *tr2) ctype(n ast.Node, ty types.Type) string {
 	}
 	if _, ok := atomicKind(ty); ok {
 		return "Z"
+	}
+	if _, ok := absIntKind(ty); ok {
+		return "Z"
+	}
+	if nn, ok := t.isStructList(ty); ok {
+		r := t.record(nn)
+		return "(list " + t.q(r.mod, r.name) + ")"
 	}
 	if isBytes(ty) || isAbstractBytes(ty) {
 		return "(list Z)"
@@ -522,6 +694,12 @@ func (t *tr2) zero(n ast.Node, ty types.Type) string {
 	if _, ok := atomicKind(ty); ok {
 		return "0"
 	}
+	if _, ok := absIntKind(ty); ok {
+		return "0"
+	}
+	if _, ok := t.isStructList(ty); ok {
+		return "[]"
+	}
 	if ln, ok := isArray(ty); ok && isBytes(ty) {
 		return fmt.Sprintf("(go_zeros %d)", ln)
 	}
@@ -541,9 +719,10 @@ func (t *tr2) zero(n ast.Node, ty types.Type) string {
 	if nn, st, ok := namedStruct(ty); ok && t.typeOK(ty) {
 		r := t.record(nn)
 		parts := []string{t.q(r.mod, "mk_"+r.name)}
-		for i, f := range r.fields {
+		_ = st
+		for _, f := range r.fields {
 			if f.ok {
-				parts = append(parts, t.zero(n, st.Field(i).Type()))
+				parts = append(parts, t.fieldZero(n, f))
 			}
 		}
 		return "(" + strings.Join(parts, " ") + ")"
@@ -759,7 +938,7 @@ func (r *recInfo) emit(t *tr2) string {
 	left := []string{}
 	for _, f := range r.fields {
 		if f.ok {
-			flds = append(flds, fmt.Sprintf("%s : %s", f.coq, t.ctype(nil, f.ty)))
+			flds = append(flds, fmt.Sprintf("%s : %s", f.coq, t.fieldType(f)))
 		} else {
 			left = append(left, f.goName)
 		}
@@ -783,7 +962,10 @@ func (r *recInfo) emit(t *tr2) string {
 				args = append(args, "("+g.coq+" r_)")
 			}
 		}
-		fmt.Fprintf(&b, "Definition set_%s (r_ : %s) (v_ : %s) : %s := mk_%s %s.\n", f.coq, r.name, t.ctype(nil, f.ty), r.name, r.name, strings.Join(args, " "))
+		fmt.Fprintf(&b, "Definition set_%s (r_ : %s) (v_ : %s) : %s := mk_%s %s.\n", f.coq, r.name, t.fieldType(f), r.name, r.name, strings.Join(args, " "))
+	}
+	if body, ok := t.recEqb(r); ok {
+		fmt.Fprintf(&b, "Definition eqb_%s (a_ b_ : %s) : bool := %s.\n", r.name, r.name, body)
 	}
 	b.WriteString("\n")
 	return b.String()
@@ -1063,4 +1245,58 @@ func (t *tr2) useSum(n ast.Node, si *sumInfo, ty types.Type) {
 	}
 	b.WriteString(".\n\n")
 	t.g.sumDecl[mod] = append(t.g.sumDecl[mod], b.String())
+}
+
+// recEqb: the body of Go's == on the struct (fields compared in order), when every field is
+// comparable in the subset (blank fields are ignored by Go's ==).
+func (t *tr2) recEqb(r *recInfo) (string, bool) {
+	conj := []string{}
+	for _, f := range r.fields {
+		if !f.ok {
+			if f.goName != "_" {
+				return "", false
+			}
+			continue
+		}
+		if f.cty != "" || f.ext != "" || f.ty == nil {
+			return "", false
+		}
+		a, c := "("+f.coq+" a_)", "("+f.coq+" b_)"
+		switch {
+		case isBool(f.ty):
+			conj = append(conj, "(Bool.eqb "+a+" "+c+")")
+		case isBytes(f.ty) && !isSlice(f.ty) && !isString(f.ty):
+			conj = append(conj, "(list_eqb "+a+" "+c+")")
+		case isString(f.ty):
+			conj = append(conj, "(list_eqb "+a+" "+c+")")
+		default:
+			if _, ok := intKind(f.ty); ok {
+				conj = append(conj, "(Z.eqb "+a+" "+c+")")
+			} else if _, isAtomic := atomicKind(f.ty); isAtomic {
+				return "", false
+			} else if _, isAbs := absIntKind(f.ty); isAbs {
+				return "", false
+			} else if nn, _, ok := namedStruct(f.ty); ok && t.typeOK(f.ty) {
+				fr := t.record(nn)
+				if _, sub := t.recEqb(fr); !sub {
+					return "", false
+				}
+				conj = append(conj, "("+t.qIn(r.mod, fr.mod, "eqb_"+fr.name)+" "+a+" "+c+")")
+			} else {
+				return "", false
+			}
+		}
+	}
+	body := "true"
+	for i := len(conj) - 1; i >= 0; i-- {
+		body = "(andb " + conj[i] + " " + body + ")"
+	}
+	return body, true
+}
+
+func (t *tr2) qIn(from, mod, name string) string {
+	if from == mod {
+		return name
+	}
+	return mod + "." + name
 }
